@@ -240,6 +240,7 @@ func init() {
 	for _, pkg := range []string{"crypto/sha256", "crypto/sha512"} {
 		reg("(*"+pkg+".digest).Write", func(in *Interp, fn *ssa.Function, args []value) (value, bool) {
 			st := hs(args[0])
+			in.schedEvent("write", args[0].(*value))
 			data := args[1].(*Slice)
 			st.buf = concatStr(st.buf, strOfSlice(in, data))
 			n := in.strLen(strOfSlice(in, data))
@@ -247,6 +248,7 @@ func init() {
 		})
 		reg("(*"+pkg+".digest).Sum", func(in *Interp, fn *ssa.Function, args []value) (value, bool) {
 			st := hs(args[0])
+			in.schedEvent("read", args[0].(*value))
 			d := mkSha(st.alg, st.buf)
 			pre := args[1].(*Slice)
 			if pre.Ghost == nil && len(pre.Data) == 0 {
@@ -255,6 +257,7 @@ func init() {
 			return sliceOfStr(concatStr(strOfSlice(in, pre), d)), true
 		})
 		reg("(*"+pkg+".digest).Reset", func(in *Interp, fn *ssa.Function, args []value) (value, bool) {
+			in.schedEvent("write", args[0].(*value))
 			hs(args[0]).buf = emptyStr
 			return nil, true
 		})
